@@ -115,6 +115,22 @@ func cmdVerify(args []string) {
 			td := time.Now()
 			e.discharge(cfg)
 			e.secs = time.Since(td).Seconds()
+			if e.debugForks != nil {
+				type kv struct {
+					k string
+					v int
+				}
+				var kvs []kv
+				for k, v := range e.debugForks {
+					kvs = append(kvs, kv{k, v})
+				}
+				sort.Slice(kvs, func(i, j int) bool { return kvs[i].v > kvs[j].v })
+				for i, x := range kvs {
+					if i < 12 {
+						fmt.Printf("   forks %5d %s\n", x.v, x.k)
+					}
+				}
+			}
 			if os.Getenv("GOVC_COVER") != "" {
 				fmt.Println("   dead returns:", e.coverReturns(cfg))
 			}
